@@ -535,6 +535,10 @@ func main() {
 		replay()
 		return
 	}
+	if sel := os.Getenv("C11_GROWTH_SCAN"); sel != "" {
+		growthScan(sel)
+		return
+	}
 	t0 := time.Now()
 	thorough := run.Thorough()
 	workers := runtime.GOMAXPROCS(0)
@@ -697,6 +701,7 @@ func main() {
 	run.Set("delivered_by_kind", p.total.Cov)
 	run.Set("growth", growthSummary)
 	run.Set("growth_runs", growthRuns.Load())
+	run.Set("growth_ratios_above_limit_remeasured", remeasured.Load())
 	run.Set("batches", p.batches)
 	run.Set("base_responses_refused_by_the_client_informative", refused)
 	run.Sample("grammar", string(defaults[len(defaults)/3]))
@@ -711,6 +716,7 @@ func main() {
 	run.Assume("sets with more than 2^20 members are not enumerated in batch workers (reported as unbounded-alloc and demonstrated once in an isolated worker under RLIMIT_AS 2 GiB)")
 	run.Assume("ESEARCH MIN/MAX 0, UIDNEXT/UIDVALIDITY/APPENDUID 0 are not flagged: 0 is the API's 'absent' value there")
 	run.Assume("CPU time (rusage of the worker) is recorded per growth run; reported are a >= 6x ratio per doubling at >= 1 s, and a >= 24x ratio over three doublings (linear: 8x) ending at >= 1 s of CPU — re-measured, the smallest ratio counts; allocation, malloc count and read/deadline call counts must stay <= 2.5x per doubling")
+	run.Assume("allocation counters of one input vary between runs by an additive amount (a select between two ready channels inside the client decides whether an O(n) error string is formatted): every growth series opens with an unmeasured warm-up job; a ratio above 2.5x is re-measured up to 12 times and reported only if every pair ratio and the ratio of the per-size minima stay above 2.5x")
 	run.Assume("the bare variant is skipped for an input when the handler variant already showed the nil-literal item that makes `go msg.discard()` panic; the three shortest such inputs are run to show the process dies")
 	run.Assume("inputs are de-duplicated on a 64-bit FNV hash")
 	if p.stopped.Load() {
